@@ -32,17 +32,23 @@ fn main() {
         let mut y = String::from("%grmtools{yacckind: Grmtools}\n");
         y.push_str(head);
         y.push_str("%parse-param tag: u64\n%%\n");
+        // a rule's alternatives may be written in several places (`R1: ..; R2: ..; R1: ..;`):
+        // alternative numbers continue where the rule's previous lines stopped
+        let mut next_alt: std::collections::HashMap<String, usize> = std::collections::HashMap::new();
         for line in body.lines() {
             let line = line.trim();
             if line.is_empty() {
                 continue;
             }
             let (name, rest) = line.split_once(':').unwrap();
+            let alt_base = *next_alt.get(name.trim()).unwrap_or(&0);
             let rest = rest.trim().strip_suffix(';').unwrap();
             let is_unit = unit_rules.iter().any(|u| u == name.trim());
             write!(y, "{} -> {}:", name.trim(), if is_unit { "()" } else { "usize" }).unwrap();
-            for (ai, alt) in rest.split('|').enumerate() {
-                if ai > 0 {
+            *next_alt.entry(name.trim().to_string()).or_insert(0) += rest.split('|').count();
+            for (ai0, alt) in rest.split('|').enumerate() {
+                let ai = alt_base + ai0;
+                if ai0 > 0 {
                     y.push_str("\n  |");
                 }
                 let syms: Vec<&str> = alt.split_whitespace().collect();
